@@ -157,6 +157,7 @@ def arrays(prop, expl, rule_extra="", dl_quick=150, dl_thorough=1800, configs=No
         configs=configs or {"quick": ["pinned", "native"], "thorough": ["pinned", "native", "asan", "debug", "v2", "bmi", "o3"]},
         shards={"pinned": 16, "native": 16, "asan": 16, "debug": 16, "v2": 16, "bmi": 16, "o3": 16},
         deadline={"quick": dl_quick, "thorough": dl_thorough},
+        tier_env={"thorough": {"pinned": {"VERIF_GIANT": "1"}, "native": {"VERIF_GIANT": "1"}}},
         rule=ARRAY_RULE + rule_extra, explanation=expl,
         assumptions=["oracle is the input array itself / ground truth recomputed by the harness",
                      "arrays longer than the corpus lengths and arbitrary (unstructured) long arrays are not enumerated"],
@@ -288,6 +289,7 @@ CHECKS["C07"] = dict(
     libs=LIBS_ALL,
     configs={"quick": ["pinned", "debug", "native"], "thorough": ["pinned", "debug", "asan", "native", "v2", "bmi"]},
     shards={"pinned": 16, "debug": 16, "asan": 16},
+    tier_env={"thorough": {"pinned": {"VERIF_GIANT": "1"}}},
     deadline={"quick": 150, "thorough": 1500},
     rule="double alphabet D = {sign} x {20 biased exponents incl. 0, 1, 1022-1024, 2046, 2047} x {~200 mantissas: 0, 1, all-ones, "
          "top-k-ones, top-k-ones-zero-ones, half-way patterns +-1 around the rounding position of each precision, patterns that "
